@@ -13,6 +13,7 @@ def dispatch (line : String) : String :=
   | "pyval" :: args => Pyval.handle args
   | "names" :: args => Names.handle args
   | "schedule" :: args => Schedule.handle args
+  | "postprocess" :: args => PostProcess.handle args
   | "escape" :: args => Escape.handle args
   | "docstring" :: args => Docstring.handle args
   | "config" :: args => Config.handle args
